@@ -254,6 +254,23 @@ func runC15(c c15Case) ev.Outcome {
 	if altID.Verify(cv.EC, c.T, vs) {
 		return fail("alter-id", "share %d verifies under id+1", i)
 	}
+	// ids that are 0 modulo the group order: no share belongs to them, so neither the dealt share nor the
+	// secret itself (f(0)) may verify there, and the call must return
+	for _, zid := range []*big.Int{big.NewInt(0), cv.Q, mul(cv.Q, big.NewInt(2))} {
+		for _, val := range []*big.Int{sh.Share, want} {
+			if new(big.Int).Mod(val, cv.Q).Sign() == 0 {
+				continue
+			}
+			z := &vss.Share{Threshold: c.T, ID: zid, Share: val}
+			var ok bool
+			if p := mustNoPanic(func() { ok = z.Verify(cv.EC, c.T, vs) }); p != nil {
+				return fail("alter-id-zero-panic", "Verify panicked for id %v (0 mod q): %v", zid, p)
+			}
+			if ok {
+				return fail("alter-id-zero", "a share verifies under id %v, which is 0 modulo the group order", zid)
+			}
+		}
+	}
 	g := crypto.ScalarBaseMult(cv.EC, big.NewInt(1))
 	for k := 0; k <= c.T; k++ {
 		vs2 := append(vss.Vs{}, vs...)
